@@ -47,3 +47,11 @@ def register(claim):
           "window is checked per suspension site (two known findings: the replay awaits inside the window).",
           NOTE_COMMON + " asyncio's one-task-at-a-time semantics trusted; FIFO wake-up order of drain is not modelled.",
           "DESIGN.md#c14")
+
+    claim("C02", "abstract string building of the encoder (symbolic segments, linear length forms), who-may-call for transport writes, codec classification",
+          "Static for every message: the encoder's return value is evaluated over an abstract string domain and shown to be "
+          "8=..|9=L|35=..|body|10=c| with L the linear form of exactly the enclosed segment and c = sum(ord) % 256 over exactly the prefix, "
+          "zero-padded to three digits; the only transport write is in send_msg, fed by encode through a strict single-byte transcoding; "
+          "an encoding error cannot fall through to the write.",
+          NOTE_COMMON + " That an independent parser accepts every frame for every value (SendingTime format, SOH inside values) is not decided.",
+          "DESIGN.md#c02")
